@@ -253,7 +253,7 @@ func (g *Gen) zero(t types.Type) string {
 		return "(mk." + s + " " + strings.Join(fs, " ") + ")"
 	case *types.Array:
 		ez := g.zero(tt.Elem())
-		if strings.Contains(ez, "lit.") {
+		if strings.Contains(ez, "lit.") || strings.Contains(ez, "iface.nil") {
 			// string literals are uninterpreted constants, which cvc5 does not accept in a constant array:
 			// name the array and state its contents
 			g.nfresh++
